@@ -36,6 +36,16 @@ type c16Case struct {
 	Names    []string   `json:"names"`
 	Expected []string   `json:"expected"` // multiset of canonical answers
 	Outside  bool       `json:"outside,omitempty"` // a value outside the domain: no answer (failure or error)
+	// Before: a call of a text built-in that ends in an error, run first on the same interpreter and caught: what it
+	// leaves behind (a half-built name, a cached decoding) must not reach the call that follows
+	Before string `json:"before,omitempty"`
+}
+
+var c16Poison = []string{
+	"atom_chars(_, [a, b|_])", "atom_chars(_, [a|b])", "atom_codes(_, [0'h, 0'i|_])", "atom_codes(_, [0'h|i])", "number_chars(_, ['1', '2'|_])", "number_codes(_, [0'1|_])",
+	"atom_chars(_, [a, 1.5])", "atom_chars(_, [a, foo(x)])", "atom_codes(_, [0'a, -1])", "number_codes(_, [0'1, 0'x])", "atom_length(_, _)", "sub_atom(_, _, _, _, ab)",
+	"atom_concat(_, _, _)", "atom_concat(ab, _, _)", "char_code(_, _)", "atom_chars(_, ['\u65e5', b|_])", "atom_length(abc, foo)", "sub_atom(abc, B, 2, A, S), atom_length(S, foo)",
+	"upcase_atom(_, _)", "atom_number(_, _)", "term_to_atom(_, _)", "number_chars(_, [' ', '1'|_])",
 }
 
 func c16Relations(thorough bool) []c16Rel {
@@ -89,6 +99,9 @@ func canon1(t T) string { return ref.Canon(t, ref.NewNamer()) }
 
 func c16Run(im *h.Impl, c *c16Case) (exp, act string, ok bool) {
 	goal := ref.Dec(c.Goal, map[string]*ref.Var{})
+	if c.Before != "" {
+		im.Query("catch(("+c.Before+"), _, true).", nil, 1)
+	}
 	if c.Outside {
 		o := im.Query(ref.Text(goal)+".", nil, 3)
 		return "no answer (failure or an error)", o.String(), len(o.Answers) == 0
@@ -281,6 +294,9 @@ func c16Work(w *h.W) {
 						expected = append(expected, ref.CanonAnswer(vs))
 					}
 					c := &c16Case{Rel: rel.Name, Goal: ref.Enc(&ref.Cmp{F: rel.Name, Args: args}), Names: names, Expected: expected}
+					if c16Calls%3 == 1 {
+						c.Before = c16Poison[(c16Calls/3)%len(c16Poison)] // a fixed rotation: every relation and mode meets every one
+					}
 					w.Guard(c)
 					// calls that involve the NUL character (the one-character atom whose internal value is 0) and every 37th
 					// call run on a FRESH interpreter: the first call of a built-in on an interpreter is a state of its own
@@ -506,7 +522,7 @@ func c16Replay(b []byte) (string, string, bool) {
 func init() {
 	h.Register(&h.Check{
 		ID: "C16",
-		Rule: "for each of the 17 predicates: the COMPLETE finite relation over a domain is computed by brute force (atoms of <= 2/3 characters over {a,b,é,日} (sub_atom/5: plus the NUL character) so that byte and character offsets differ; calls involving NUL and every 37th call run on a fresh interpreter; lists of <= 3/4 elements; 12 terms; integers near 0 and near +-2^63), then for every instantiation pattern the predicate's modes admit and every combination of bound values (all projections of the relation plus all one-position mutations, i.e. matching and non-matching calls) the call is run to exhaustion and its answers compared AS A MULTISET with the matching tuples; modes that create variables or enumerate infinitely (length/2, append/3, between/3 with inf, member/select on partial lists, functor/3 and =../2 construction) are compared with the reference machine on their first answers; values outside the domain altogether (codes beyond 32 bits, negative, surrogate, beyond U+10FFFF; huge lengths) must not be answered; chains: the input list is itself the answer of one of 12 built-in constructions (literal, append/3, findall/3, sort/2, =../2, atom_chars/2, atom_codes/2, copy_term/2, length/2, term_variables/2, nested, append in split mode) at every length 0..9 (10), and every ordered pair of 11 calls that extend/decompose that same list runs in one conjunction with both answers kept, compared with the reference machine; fresh identity: atoms whose substrings no execution of the process has interned before (unique doubled names, ASCII and multi-byte) through 7 goals over sub_atom/5, atom_concat/3, atom_chars/2, atom_codes/2: answers with equal text are one atom (== implies unifiable), within a call, across calls and across routes. Non-trivial = at least one matching tuple; distinct = goal text.",
+		Rule: "for each of the 17 predicates: the COMPLETE finite relation over a domain is computed by brute force (atoms of <= 2/3 characters over {a,b,é,日} (sub_atom/5: plus the NUL character) so that byte and character offsets differ; calls involving NUL and every 37th call run on a fresh interpreter; lists of <= 3/4 elements; 12 terms; integers near 0 and near +-2^63), then for every instantiation pattern the predicate's modes admit and every combination of bound values (all projections of the relation plus all one-position mutations, i.e. matching and non-matching calls) the call is run to exhaustion and its answers compared AS A MULTISET with the matching tuples; modes that create variables or enumerate infinitely (length/2, append/3, between/3 with inf, member/select on partial lists, functor/3 and =../2 construction) are compared with the reference machine on their first answers; values outside the domain altogether (codes beyond 32 bits, negative, surrogate, beyond U+10FFFF; huge lengths) must not be answered; chains: the input list is itself the answer of one of 12 built-in constructions (literal, append/3, findall/3, sort/2, =../2, atom_chars/2, atom_codes/2, copy_term/2, length/2, term_variables/2, nested, append in split mode) at every length 0..9 (10), and every ordered pair of 11 calls that extend/decompose that same list runs in one conjunction with both answers kept, compared with the reference machine; fresh identity: atoms whose substrings no execution of the process has interned before (unique doubled names, ASCII and multi-byte) through 7 goals over sub_atom/5, atom_concat/3, atom_chars/2, atom_codes/2: answers with equal text are one atom (== implies unifiable), within a call, across calls and across routes. Non-trivial = at least one matching tuple; distinct = goal text.; every third call is preceded, on the same interpreter, by one of 22 calls of the text built-ins that end in an error (partial and improper lists with a valid prefix, invalid elements, unbound arguments), caught, in a fixed rotation",
 		Explanation: "state = one call pattern with bound values; transition = the call run to exhaustion on the real interpreter; oracle = the brute-force relation filtered by the bound arguments (each tuple exactly once, nothing else) - which also gives the monotonicity clause, since a more instantiated call is compared with the matching subset of the same relation",
 		Assumptions: []string{"ref/relations: brute-force definitions (all splits, all (B,L,A) triples, all index/element pairs ...) with text measured in runes", "member/2 and select/3 answer once per occurrence (position) of the element", "errors for calls outside the modes belong to C05"},
 		Work:        c16Work,
